@@ -1,13 +1,13 @@
 #!/bin/bash
 # usage: seedtest.sh <seed-root> [filter]   — applies each patch to a scratch copy of /repo and lists the violations found
-root=${1:-/tmp/seed}; filt=${2:-}
-for d in $(ls -d $root/C*/[0-9]* 2>/dev/null | sort); do
+root=${1:-/verif/seeded}; filt=${2:-}
+for d in $(ls -d $root/C* 2>/dev/null | sort); do
   case "$d" in *"$filt"*) ;; *) continue;; esac
   [ -f $d/patch.diff ] || continue
   t=$(mktemp -d /tmp/sv.XXXXXX)
   cp /repo/*.go /repo/go.mod $t/ ; cp -r /repo/testdata $t/ 2>/dev/null
   if ! (cd $t && patch -p1 -s < $d/patch.diff >/dev/null 2>&1); then echo "$d: PATCH DOES NOT APPLY"; rm -rf $t; continue; fi
-  prop=$(basename $(dirname $d))
+  prop=$(basename $d | cut -d- -f1)
   out=$(/verif/bin/dverif list -bad -repo $t 2>&1 | grep -v "cell:Expm1(-zero)" | grep -v "obligations$")
   n=$(echo -n "$out" | grep -c .)
   hit=$(echo "$out" | grep -c "$prop")
